@@ -22,7 +22,7 @@ for m in sorted(glob.glob('/verif/seeded/*/meta.json')):
     j = json.load(open(m)); n = os.path.basename(os.path.dirname(m))
     needs = re.sub(r'\s+', ' ', j.get('what_it_needs_to_manifest', ''))
     needs = re.sub(r'^#+ *What it needs( in order)? to manifest *', '', needs, flags=re.I)[:260].replace('|', '\\|')
-    res = ("yes — " + "; ".join(j.get('violation_classes', [])[:2])) if j.get('caught') else "NO (see note)"
+    res = ("yes — " + "; ".join(j.get('violation_classes', [])[:2])) if j.get('caught') else ("not by this property's check; caught by " + j['caught_by_other'] if j.get('caught_by_other') else "NO (see note)")
     if j.get('caught') and j.get('missed_before_strengthening'): res = "yes, after strengthening (missed by the check as first built) — " + res[6:]
     if j.get('note'): res += " — " + j['note'][:200]
     t14.append(f"| {n} | {j['property']} | {needs} | {res[:420]} |")
@@ -55,11 +55,12 @@ for m in sorted(glob.glob('/verif/seeded/*/meta.json')):
     d['n'] += 1
     if j.get('caught') and not j.get('missed_before_strengthening') and 'MISSED' not in (j.get('note') or ''): d['first'] += 1
     elif j.get('caught'): d['after'] += 1
+    elif j.get('caught_by_other'): d.setdefault('other', []).append(os.path.basename(os.path.dirname(m)) + ' by ' + j['caught_by_other'])
     else: d['missed'].append(os.path.basename(os.path.dirname(m)))
-t14s = ["| round | seeded changes | caught by the check as it stood | caught after strengthening | still missed |", "|---|---|---|---|---|"]
+t14s = ["| round | seeded changes | caught by the check as it stood | caught after strengthening | caught by another property's check | still missed |", "|---|---|---|---|---|---|"]
 for r in sorted(rounds):
     d = rounds[r]
-    t14s.append(f"| {r} | {d['n']} | {d['first']} | {d['after']} | {len(d['missed'])} {('(' + ', '.join(d['missed']) + ')') if d['missed'] else ''} |")
+    t14s.append(f"| {r} | {d['n']} | {d['first']} | {d['after']} | {', '.join(d.get('other', [])) or '0'} | {len(d['missed'])} {('(' + ', '.join(d['missed']) + ')') if d['missed'] else ''} |")
 s = open('/verif/DESIGN.md').read()
 for tag, rows in (('status', t11), ('fixes', t13), ('known', t13k), ('seeded', t14), ('seedsummary', t14s)):
     a, b = f"<!-- GEN:{tag} -->", f"<!-- /GEN:{tag} -->"
